@@ -297,6 +297,10 @@ def make_subject(cs, res, tier, stream, like=None, prefer_k2=False):
             sub.own_upper = ("dps2", models.sk1_dps2_upper(x, dims))
         elif not sub.psd and dims[0] * dims[1] <= 16 and (meta["kind"] in ("hermitian_pq", "indefinite") or gate == 0):
             sub.own_upper = ("bilinear", models.sk_bilinear_upper(x, k, dims))
+        elif sub.psd and dims[0] * dims[1] <= 16 and gate == 1:
+            # PSD with k >= 2 (or k = 1 where the extension would be too large): own implementation of the
+            # k-positivity / PPT outer approximation - bites when the library stops before its own SDP stage
+            sub.own_upper = ("bilinear", models.sk_bilinear_upper(x, k, dims))
         if sub.own_upper is not None and sub.own_upper[1] is None:
             res.failed("model:" + sub.own_upper[0] + "_sdp")
             sub.own_upper = None
